@@ -6,6 +6,7 @@ export CARGO_NET_OFFLINE=true
 mkdir -p .build out evidence
 ( cd coq && coq_makefile -f _CoqProject -o Makefile >/dev/null && timeout 3000 make -j"$(nproc)" >/dev/null )
 ./ocaml/build.sh
+./ocaml/build_render.sh
 cp /repo/Cargo.lock harness/Cargo.lock
 ( cd harness && cargo build --offline -q --features hooks && cargo build --offline -q --release --features hooks )
 ./harness_cpp/build.sh >/dev/null
